@@ -46,7 +46,9 @@ def gen_history(r, path, nops, grow):
     buf = r.choice([4096, 4096, 8192])
     setup, st = ["db 1"], {1: {}}
     dbs = [1]
-    inplace = (not grow) and r.random() < 0.6
+    inplace = (not grow) and r.random() < 0.5
+    # churn profile: one small block per database, deletes and re-puts of medium values: data blocks are compacted in place
+    churn = (not grow) and (not inplace) and r.random() < 0.7
     if r.random() < (0.8 if inplace else 0.4):
         setup.append("db 2"); st[2] = {}; dbs.append(2)
     keys = [b"k%03d" % i for i in range(r.choice([6, 20, 50]))] + [bytes([65 + i]) * r.choice([40, 120, 200]) for i in range(2)]
@@ -56,7 +58,23 @@ def gen_history(r, path, nops, grow):
     # some committed content before the enumeration starts
     # (in-place profile: mostly a small store whose file never grows, so that close has no tail to trim and its
     # checkpoint is not preceded by the resize-forced one of open finding F26)
-    for _ in range(0 if inplace and r.random() < 0.7 else r.randrange(0, 25)):
+    lead = []
+    if churn:
+        # a data block filled to 80-97 % of 1K (or 2K) by one short record and m equal ones, all checkpointed; the enumerated
+        # part starts by deleting the short one and adding a record that fits only after the block has been compacted
+        cap = r.choice([1024, 1024, 2048])
+        small, L = r.randrange(20, 60), r.choice([60, 100, 150])
+        m = max(2, int((r.uniform(0.80, 0.97) * cap - small) / (L + 8)))
+        keys = [b"k%03d" % i for i in range(m + 2)]
+        for d in dbs:
+            for i, k in enumerate(keys[:m + 1]):
+                ln, seed = (small if i == 0 else L), r.randrange(1, 250)
+                setup.append("put %d %s %d %d" % (d, k.hex(), ln, seed)); st[d][k] = (ln, seed)
+        d = r.choice(dbs)
+        lead = [("del", d, keys[0]), ("put", d, keys[m + 1], small + r.randrange(5, 70), r.randrange(1, 250))]
+        if r.random() < 0.5:
+            lead.append(("sync",))
+    for _ in range(0 if (churn or inplace and r.random() < 0.7) else r.randrange(0, 25)):
         d, k = r.choice(dbs), r.choice(keys)
         ln, seed = r.choice([r.randrange(1, 60), r.randrange(1, 600), r.randrange(600, 5000)]), r.randrange(1, 250)
         setup.append("put %d %s %d %d" % (d, k.hex(), ln, seed)); st[d][k] = (ln, seed)
@@ -82,6 +100,9 @@ def gen_history(r, path, nops, grow):
     twophase = inplace and len(dbs) >= 2 and r.random() < 0.7
     cutover = int(nops * r.choice([0.4, 0.6, 0.8]))
     seen_a = set()
+    for a in lead:
+        acts.append(a)
+        ops.append("sync" if a[0] == "sync" else "del %d %s" % (a[1], a[2].hex()) if a[0] == "del" else "put %d %s %d %d" % (a[1], a[2].hex(), a[3], a[4]))
     for step in range(nops):
         x = r.random()
         if twophase and step == cutover:
@@ -105,12 +126,14 @@ def gen_history(r, path, nops, grow):
                 seen_a.add(k)
             elif twophase and d == dbs[0] and seen_a and r.random() < 0.8:
                 k = r.choice(sorted(seen_a))
-            if r.random() < (0.25 if not inplace else 0.08):
+            if r.random() < (0.08 if inplace else 0.4 if churn else 0.25):
                 ops.append("del %d %s" % (d, k.hex())); acts.append(("del", d, k))
             else:
                 ln = r.choice([r.randrange(1, 40), r.randrange(1, 300), r.randrange(300, 3000), r.randrange(3900, 4300),
                                r.randrange(4000, 9000)] + ([] if grow else [r.randrange(9000, 40000)]))
                 seed = r.randrange(1, 250)
+                if churn:
+                    ln = r.randrange(40, 260)
                 if inplace:
                     ln = fixed[k]
                 ops.append("put %d %s %d %d" % (d, k.hex(), ln, seed)); acts.append(("put", d, k, ln, seed))
@@ -184,7 +207,7 @@ def explore(ctx, h, drv, label, nhist, nops, stride, n2):
         path = os.path.join(wd, "h%d.db" % hi)
         obs = os.path.join(wd, "obs%d" % hi)
         os.makedirs(obs, exist_ok=True)
-        grow = hi % 3 != 0          # every third history grows the file inside operations (forced checkpoints)
+        grow = hi % 2 == 1          # every other history grows the file inside operations (forced checkpoints)
         lines, ops, acts, st0, crc = gen_history(r, path, r.randrange(max(4, nops // 2), nops), grow)
         states = ref_states(st0, acts)
         rc, out, err = C.run_lines([h], lines + ["count " + obs], timeout=120)
@@ -511,7 +534,7 @@ def run(ctx):
     h = build(ctx)
     drv = C.drv_path() if drv_ok else None
     if ctx.tier == "quick":
-        explore(ctx, h, drv, "main", 9, 14, 1, 12)
+        explore(ctx, h, drv, "main", 12, 14, 1, 12)
         writer_tie(ctx, drv, "main", 5, 50)
     else:
         explore(ctx, h, drv, "main", 24, 30, 1, 60)
